@@ -227,6 +227,7 @@ func C07(p *core.Program, r *core.Report) {
 	// fragment must be filed at all (the same construct as under C05)
 	checkFragmentIdentity(p, r)
 	checkHandOverConfirmed(p, r)
+	checkRestClientLifeCycle(p, r)
 }
 
 // checkHandOverConfirmed: AgentManager.Deliver releases the bundle (removes LocalEndpoint, returns nil, which makes
@@ -702,4 +703,110 @@ func checkDeliverGuard(p *core.Program, r *core.Report) {
 	})
 	r.Min("AgentManager.Deliver sends", 1)
 	r.Count("AgentManager.Deliver sends", nSend)
+}
+
+// checkRestClientLifeCycle (audit 4): "to no other client ... also while clients register, unregister or fetch
+// concurrently", "a REST client's fetches together return every bundle put into its mailbox exactly once".
+//  (a) a bundle is put into a mailbox only for a client that is still registered, tested under the mailbox mutex; the
+//      unregistration removes the client under the same mutex (otherwise a delivery in progress re-creates the mailbox
+//      of a client whose /unregister was already answered);
+//  (b) bundles taken out of a mailbox for a /fetch whose response could not be written are put back.
+func checkRestClientLifeCycle(p *core.Program, r *core.Report) {
+	const mtx = "pkg/agent.RestAgent.mailboxMutex"
+	isF := func(v ssa.Value, f string) bool { return core.IsField(v, agentPkg, "RestAgent", f) }
+	rb := p.Func(agentPkg, "RestAgent", "receiveBundleMessage")
+	ls := core.ComputeLockSets(rb)
+	n := 0
+	for _, st := range core.CallsTo(rb, "sync.Map.Store") {
+		if !isF(core.CallRecv(st), "mailbox") {
+			continue
+		}
+		n++
+		ok := false
+		for _, cd := range core.DominatingConds(st.Block()) {
+			ex, isEx := cd.V.(*ssa.Extract)
+			if !isEx || ex.Index != 1 || !cd.True {
+				continue
+			}
+			ld, isCall := ex.Tuple.(*ssa.Call)
+			if !isCall || core.CalleeName(ld) != "sync.Map.Load" || !isF(core.CallRecv(ld), "clients") {
+				continue
+			}
+			if !core.SameExpr(core.Arg(ld, 0), core.Arg(st, 0)) {
+				continue
+			}
+			if _, held := ls.Held(ld, mtx, true); held {
+				if ls.SameWriteRegion(ld, st, mtx) {
+					ok = true
+				}
+			}
+		}
+		r.Check(ok, "rest/"+fname(rb)+"/registered-tested-with-the-mailbox", "a bundle enters a client's mailbox only if, under the same acquisition of the mailbox mutex, the client is still registered", p.Pos(st.Pos()), "", "the mailbox is written for a UUID collected earlier without re-testing it under the lock: a client whose /unregister was answered in between gets a new mailbox and the bundle in it")
+	}
+	r.Min("mailbox stores in receiveBundleMessage", 1)
+	r.Count("mailbox stores in receiveBundleMessage", n)
+	hu := p.Func(agentPkg, "RestAgent", "handleUnregister")
+	lsU := core.ComputeLockSets(hu)
+	for _, d := range core.CallsTo(hu, "sync.Map.Delete") {
+		if !isF(core.CallRecv(d), "clients") {
+			continue
+		}
+		_, held := lsU.Held(d, mtx, true)
+		r.Check(held, "rest/"+fname(hu)+"/client-removed-with-the-mailbox", "the client is removed from the registration table under the mailbox mutex (together with its mailbox)", p.Pos(d.Pos()), "", "clients.Delete outside the mailbox mutex: a delivery that already holds the UUID stores a bundle after the unregistration was answered")
+	}
+	// (b)
+	hf := p.Func(agentPkg, "RestAgent", "handleFetch")
+	storesMailbox := func(f *ssa.Function) bool {
+		found := false
+		for _, g := range core.WithHelpers(f, 30) {
+			for _, st := range core.CallsTo(g, "sync.Map.Store") {
+				if isF(core.CallRecv(st), "mailbox") {
+					found = true
+				}
+			}
+		}
+		return found
+	}
+	nEnc := 0
+	core.EachInstr(hf, func(in ssa.Instruction) {
+		c, ok := in.(*ssa.Call)
+		if !ok || core.CalleeName(c) != "encoding/json.Encoder.Encode" {
+			return
+		}
+		nEnc++
+		okBack := false
+		for _, blk := range hf.Blocks {
+			ifi, isIf := blk.Instrs[len(blk.Instrs)-1].(*ssa.If)
+			if !isIf {
+				continue
+			}
+			x, isNil, okC := core.NilCmp(core.Cond{V: ifi.Cond, True: true})
+			if !okC || !isResultOf(x, c) {
+				continue
+			}
+			fail := blk.Succs[0]
+			if isNil {
+				fail = blk.Succs[1]
+			}
+			okBack, _ = core.MustPassAfter(fail.Instrs[0], func(i ssa.Instruction) bool {
+				cc, ok := i.(ssa.CallInstruction)
+				if !ok {
+					return false
+				}
+				if core.CalleeName(cc) == "sync.Map.Store" && isF(core.CallRecv(cc), "mailbox") {
+					return true
+				}
+				callee := core.Callee(cc)
+				return callee != nil && core.IsRepo(callee) && storesMailbox(callee)
+			}, core.IsReturn)
+			if cc, ok := fail.Instrs[0].(ssa.CallInstruction); ok && !okBack {
+				if callee := core.Callee(cc); callee != nil && core.IsRepo(callee) && storesMailbox(callee) {
+					okBack = true
+				}
+			}
+		}
+		r.Check(okBack, "rest/"+fname(hf)+"/taken-bundles-returned-on-failure", "when the /fetch response cannot be written, the bundles taken out of the mailbox are put back (the client's next fetch returns them)", p.Pos(c.Pos()), "", "the write error is only logged: the bundles were removed from the mailbox, counted as delivered, and the client never gets them")
+	})
+	r.Min("responses written by handleFetch", 1)
+	r.Count("responses written by handleFetch", nEnc)
 }
